@@ -79,8 +79,10 @@ def run(tier, seed, only=None):
         # (no override): the nodal loads of LoadTransfer(surface) act at the structural nodes ComputeNodes(surface) reports,
         # for the boundary values and a non-default value of fem_origin
         if (nx, ny) == cfgs(tier)[0][1:3]:
-            for fo in (0.0, 0.35, 0.625, 1.0):
-                sfo = dict(s, fem_origin=fo)
+            sw_key = K.surface(nx, ny, symm, fem_model_type="wingbox")  # wingbox: the spar location comes from the airfoil data,
+            sw_nokey = dict(sw_key)                                       # whether or not the dictionary also carries a fem_origin key
+            sw_nokey.pop("fem_origin", None)
+            for fo, sfo in [(v_, dict(s, fem_origin=v_)) for v_ in (0.0, 0.35, 0.625, 1.0)] + [("wingbox with a fem_origin key", sw_key), ("wingbox", sw_nokey)]:
                 lt = SymComp("transfer.load_transfer", "LoadTransfer", surface=sfo)
                 cn_ = SymComp("structures.compute_nodes", "ComputeNodes", surface=sfo)
                 rep.encode(type(cn_.comp))
@@ -107,9 +109,9 @@ def run(tier, seed, only=None):
                     else:
                         got = (real[:, 3:].sum(axis=0) + np.cross(nodes_r - pp, real[:, :3]).sum(axis=0))[k]
                         ref = np.cross(a - pp, Fv).sum(axis=(0, 1))[k]
-                    return model.differs(got, ref, 1e-7), "fem_origin=%g, %s: nodal loads at the ComputeNodes nodes give %.9g, panel forces give %.9g" % (fo, ob.id, got, ref)
+                    return model.differs(got, ref, 1e-7), "fem_origin=%s, %s: nodal loads at the ComputeNodes nodes give %.9g, panel forces give %.9g" % (fo, ob.id, got, ref)
 
-                run_obligations(rep, "LoadTransfer + ComputeNodes, fem_origin=%g [%s]" % (fo, cn), obs, timeout, replay=lt2_real,
+                run_obligations(rep, "LoadTransfer + ComputeNodes, fem_origin=%s [%s]" % (fo, cn), obs, timeout, replay=lt2_real,
                                 family=lambda ob: "LoadTransfer: " + ob.meta["family"])
         # ------------------------------------------------------------------ MeshPointForces
         sc = SymComp("aerodynamics.mesh_point_forces", "MeshPointForces", surfaces=[s])
